@@ -17,7 +17,7 @@ func (v *Verifier) report(prop, tier string, seed int, reps []*FuncReport, obs, 
 			knownBy[k.Obligation] = k
 		}
 	}
-	os.MkdirAll(filepath.Join(v.VerifDir, "replays"), 0o755)
+	os.MkdirAll(filepath.Join(v.outDir(), "replays"), 0o755)
 
 	nObl, nProved := 0, 0
 	bySolver := map[string]int{}
@@ -71,7 +71,7 @@ func (v *Verifier) report(prop, tier string, seed int, reps []*FuncReport, obs, 
 	for _, vn := range vacuous {
 		violations++
 		exit = 1
-		path := filepath.Join(v.VerifDir, "replays", prop+"-"+sanitizeFile(vn)+".json")
+		path := filepath.Join(v.outDir(), "replays", prop+"-"+sanitizeFile(vn)+".json")
 		writeJSON(path, map[string]interface{}{"property": prop, "obligation": vn, "kind": "no-failing-input-found",
 			"reason": "vacuity guard: the assumptions of this function (preconditions, assumed callee contracts, axioms) are contradictory, so every obligation would pass"})
 		lines = append(lines, fmt.Sprintf("VIOLATION property=%s replay=%s no-failing-input-found", prop, path))
@@ -167,7 +167,7 @@ func (v *Verifier) report(prop, tier string, seed int, reps []*FuncReport, obs, 
 		"wall_s":      round3(time.Since(t0).Seconds()),
 		"violations":  violations,
 	}
-	writeJSON(filepath.Join(v.VerifDir, "evidence", prop+".json"), ev)
+	writeJSON(filepath.Join(v.outDir(), "evidence", prop+".json"), ev)
 	for _, l := range lines {
 		fmt.Println(l)
 	}
@@ -183,6 +183,15 @@ func (v *Verifier) report(prop, tier string, seed int, reps []*FuncReport, obs, 
 	return exit
 }
 
+// outDir: where evidence and replay files go (GVC_OUT overrides, used by the
+// must-fail selftest so that mutant runs never touch the committed evidence).
+func (v *Verifier) outDir() string {
+	if d := os.Getenv("GVC_OUT"); d != "" {
+		return d
+	}
+	return v.VerifDir
+}
+
 func round3(f float64) float64 { return float64(int(f*1000)) / 1000 }
 
 func relFiles(fs []string, repo string) []string {
@@ -196,7 +205,7 @@ func relFiles(fs []string, repo string) []string {
 // writeReplay records a failed obligation; returns the path and whether a concrete
 // failing input was found and reproduced on the real code.
 func (v *Verifier) writeReplay(prop string, o *Oblig, scratch string) (string, bool) {
-	path := filepath.Join(v.VerifDir, "replays", prop+"-"+sanitizeFile(o.Name)+".json")
+	path := filepath.Join(v.outDir(), "replays", prop+"-"+sanitizeFile(o.Name)+".json")
 	rec := map[string]interface{}{
 		"property": prop, "obligation": o.Name, "function": o.Func, "clause": o.Src, "position": o.Pos,
 		"solver_result": o.Status, "solvers": o.Output, "kind": "no-failing-input-found",
